@@ -10,7 +10,7 @@ PROP = {
              "random values each; (2b) the cursor family: the same structures that hold a bit string or a cell (MsgAddress, CommonMsgInfo, "
              "Message: 120 values; StateInit, SimpleLib, Transaction, TransactionDescr, signed body: 25) after the read cursors inside "
              "the Go value were advanced by 1/3/8/9/64/511 bits (a value that was decoded and inspected before being re-encoded): "
-             "the cell must still be the schema serialisation and equal the cell of the fresh value; (2c) exotic cells through boc.Cell positions (implementation only, counted under exotic|kinds|outcome): for every described type with a ^Cell / Ref[Cell] / Maybe[Ref[Cell]] / Any position (60 values for StateInit, Message, SimpleLib, Account, VmStackValue, 4 for the others; x10 thorough) the cells at the ENCODED positions are replaced by library cells (8+256 bits), pruned branches (masks 1..7), Merkle proofs and Merkle updates with consistent children (boc.VerifSetTypeMask), Any values get 1-2 exotic references: every planted cell must occur in the tree tlb.Marshal produces with its hash, cell type and level mask (C03_cell_passthrough on the model side), and, unless a pruned branch is involved (the decoder leaves those empty by design), decode -> encode reproduces the root hash under EVERY decoder configuration (tlb.Unmarshal, NewDecoder(), NewDecoder().WithLibraryResolver(fn) and a zero Decoder with a resolver - fn returns an ordinary cell -, WithDebug()); 40 state-inits built as on chain with library-cell code: decode -> encode reproduces the source hash (keys exotic-passthrough-<Type>, stateinit-exotic-reencode); (3) ton.CreateExternalMessage envelopes (workchains 0/-1/random, with and without state-init, random "
+             "the cell must still be the schema serialisation and equal the cell of the fresh value; (2d) text: every extension-layer type (FixedLengthText, Text, Bytes, SnakeData, TextComment and the bodies holding them), 20 (250 thorough) values with random bytes and with multi-byte UTF-8 text (2-, 3-, 4-byte runes): cell vs the model, whose declarative serialisation puts the number of BYTES in the length prefix (C04_lenbytes_counts_bytes); (2c) exotic cells through boc.Cell positions (implementation only, counted under exotic|kinds|outcome): for every described type with a ^Cell / Ref[Cell] / Maybe[Ref[Cell]] / Any position (60 values for StateInit, Message, SimpleLib, Account, VmStackValue, 4 for the others; x10 thorough) the cells at the ENCODED positions are replaced by library cells (8+256 bits), pruned branches (masks 1..7), Merkle proofs and Merkle updates with consistent children (boc.VerifSetTypeMask), Any values get 1-2 exotic references: every planted cell must occur in the tree tlb.Marshal produces with its hash, cell type and level mask (C03_cell_passthrough on the model side), and, unless a pruned branch is involved (the decoder leaves those empty by design), decode -> encode reproduces the root hash under EVERY decoder configuration (tlb.Unmarshal, NewDecoder(), NewDecoder().WithLibraryResolver(fn) and a zero Decoder with a resolver - fn returns an ordinary cell -, WithDebug()); 40 state-inits built as on chain with library-cell code: decode -> encode reproduces the source hash (keys exotic-passthrough-<Type>, stateinit-exotic-reencode); (3) ton.CreateExternalMessage envelopes (workchains 0/-1/random, with and without state-init, random "
              "bodies and fees); (4) every message and transaction of the five testdata blocks (re-encoded hash = source hash on the "
              "implementation; transactions modulo the out_msgs dictionary cell). Per case the cell tlb.Marshal produces is compared "
              "with the model's cell, and the model reports whether the descriptor refines the block.tlb transcription and whether its "
